@@ -91,7 +91,19 @@ def check(ctx, cname, crs, lon, lat, container, mode, value, ckind):
             warnings.simplefilter("ignore")
             dyn = DynamicAreaDefinition("d", "d", crs)
             kw = {mode: value}
-            area = dyn.freeze(_wrap(container, lon.copy(), lat.copy()), **kw)
+            lo_in, la_in = lon.copy(), lat.copy()
+            given = _wrap(container, lo_in, la_in)
+            area = dyn.freeze(given, **kw)
+            # freezing is a query: the caller's coordinates are the same afterwards, and asking again gives the same area
+            if not (np.array_equal(lo_in, lon, equal_nan=True) and np.array_equal(la_in, lat, equal_nan=True)):
+                ctx.fail("DynamicAreaDefinition.freeze", "freeze() changed the lon/lat arrays it was given (the returned area no longer describes the caller's data)", inp,
+                         {"max_change": float(np.nanmax(np.abs(lo_in - lon)))}, tags={"family": "inputs-modified", "container": container}, size=int(lon.size))
+                return
+            again = DynamicAreaDefinition("d", "d", crs).freeze(given, **kw)
+            if again.shape != area.shape or not np.allclose(again.area_extent, area.area_extent, rtol=1e-12, atol=0):
+                ctx.fail("DynamicAreaDefinition.freeze", f"a second freeze of the same data gives extent {list(again.area_extent)} / shape {again.shape}, the first "
+                         f"{list(area.area_extent)} / {area.shape}", inp, tags={"family": "second-freeze"}, size=int(lon.size))
+                return
     except Exception as e:  # noqa
         ctx.fail("DynamicAreaDefinition.freeze", f"raised {type(e).__name__}: {e}", inp, size=int(lon.size))
         return
@@ -169,12 +181,18 @@ def suite_antimeridian(ctx):
         if r.random() < 0.3:
             lon[2] = 180.0
         lat = np.array([lat0 + r.uniform(-5, 5) for _ in range(n)])
+        has_nan = r.random() < 0.4
+        if has_nan:      # missing navigation: not a data point
+            k_ = r.randrange(3, n)
+            lon[k_] = lat[k_] = np.nan
         lon2, lat2 = lon.reshape(1, n), lat.reshape(1, n)
+        fin = np.isfinite(lon) & np.isfinite(lat)
+        lon, lat = lon[fin], lat[fin]
         for amode in ("modify_extents", "modify_crs", "global_extents"):
             for mode, value in (("resolution", r.choice([0.25, 0.5, 1.0])), ("shape", (r.randrange(2, 14), r.randrange(2, 30)))):
                 container = r.choice(["numpy", "dask", "swath"])
                 inp = {"crs": "EPSG:4326", "antimeridian_mode": amode, "container": container, mode: value if mode != "shape" else list(value),
-                       "lon_range": [float(lon.min()), float(lon.max())], "n": n, "has_180": bool((lon == 180.0).any())}
+                       "lon_range": [float(lon.min()), float(lon.max())], "n": n, "has_180": bool((lon == 180.0).any()), "has_nan": has_nan}
                 try:
                     with warnings.catch_warnings():
                         warnings.simplefilter("ignore")
